@@ -346,16 +346,19 @@ def R5_bundle(run):
     facts = run.facts
     fn = facts.need_fn("state::position_bundle::PositionBundle::update_bitmap")
     run.touch(fn)
-    idx = any("InvalidBundleIndex" in _codes(at) and mentions(at.term, lambda s: s[0] == "call" and s[1].endswith("is_valid_bundle_index")) and at.false_fail for at in A.atoms(fn))
-    run.check("R5", "index-bound", idx, "update_bitmap does not reject invalid bundle indexes", loc=fn.loc(), detail="!is_valid_bundle_index => InvalidBundleIndex")
-    v = facts.need_fn("state::position_bundle::PositionBundle::is_valid_bundle_index")
-    pv = prov_of(v)
-    ok = False
-    for bi, bb in enumerate(v.blocks):
-        if bb["t"]["k"] == "ret":
-            r = strip(pv.local(0, bi, len(bb["s"])))
-            ok = r[0] == "bin" and r[1] == "Lt" and is_param(r[2], "bundle_index") and const_val(r[3]) == 256
-    run.check("R5", "index-lt-256", ok, "is_valid_bundle_index is not bundle_index < 256", loc=v.loc(), detail="bundle_index < POSITION_BUNDLE_SIZE (256)")
+    # (is_valid_bundle_index is read spliced in: the helper call and the comparison written in place are one text)
+    from rules.common import decided
+    idx = False
+    for at in A.atoms(fn):
+        dc = decided(at, lambda t: is_param(t, "bundle_index"), ("Ge", "Gt"))
+        if dc is None or "InvalidBundleIndex" not in _codes(at):
+            continue
+        bound = const_val(dc[2])
+        if bound is not None and bound + (1 if dc[0] == "Gt" else 0) == 256 and cfg.fail_only(fn, dc[3][0]) and not cfg.fail_only(fn, dc[4][0]) \
+                and cfg.dominates(fn, at.block, at.block) and not [b for b in cfg.reach(fn, 0, cut_blocks=[at.block]) if fn.blocks[b]["t"]["k"] == "ret"]:
+            idx = True
+    run.check("R5", "index-bound", idx, "update_bitmap does not reject bundle indexes >= 256 with InvalidBundleIndex before anything else", loc=fn.loc(),
+              detail="bundle_index >= POSITION_BUNDLE_SIZE (256) => InvalidBundleIndex")
     for open_ in (True, False):
         ctx = {"open": open_}
         code = "BundledPositionAlreadyOpened" if open_ else "BundledPositionAlreadyClosed"
